@@ -7,7 +7,8 @@
      "ctor"/"dtor"/"c" paths and wrapf always for "result"; ids are ids of the entry's interface signature
      (buf_args, buf_extra, declarations, return type class).
  (b) typemapRows: one row per registered type: class/size of c_type, of the kind named by f_kind, of
-     f_c_type and of f_type (LP64 tables of tools/interop_parse.py).
+     f_c_type and of f_type (LP64 tables of tools/interop_parse.py).  fcnptrTypemap: the typemap the real code
+     creates for a typedef of a function pointer (struct members, arguments and results of that type).
  (c) structPairs: helper structs emitted for both sides (capsule_data, array_context, capsule of a wrapped
      class) parsed from the helper texts; helperIfaces: helper interfaces (copy_string, copy_array_*) paired with
      the C definition they bind to.
@@ -311,6 +312,32 @@ def typemap_rows():
     return rows
 
 
+def fcnptr_rows():
+    """The typemap the real ast.add_declaration / typemap.create_fcnptr_typemap builds for `typedef ret (*name)(...)`,
+    per language: (C class of c_type, Fortran class of `f_c_type or f_type`, f_module names C_FUNPTR).  A c_type that is
+    not the typedef's own name, or an f_type that is no Fortran type, is class 0 (the table theorem then fails)."""
+    import contextlib
+    import io
+    from shroud import ast, typemap
+    rows = []
+    for lang in ("c", "c++"):
+        typemap.initialize()
+        lib = ast.LibraryNode(library="probe", language=lang)
+        with contextlib.redirect_stdout(io.StringIO()):
+            node = lib.add_declaration("typedef int (*shroud_probe_fn)(int x, void (*g)(void));")
+        t = node.typemap
+        cc = (CB["funptr"], 0) if t.c_type == "shroud_probe_fn" else (0, 0)
+        try:
+            base, _ = ip.parse_f_type((t.f_c_type or t.f_type or "").replace("character(*)", "character(len=*)"))
+            fc = (FB[base[0]], base[1] if base[0] not in ("derived", "procedure", "cptr", "funptr", "assumedtype") else 0)
+        except (ip.ParseError, KeyError):
+            fc = (0, 0)
+        mod = t.f_c_module or t.f_module or {}
+        rows.append((lang, cc, fc, 1 if "C_FUNPTR" in (mod.get("iso_c_binding") or []) else 0))
+    typemap.initialize()
+    return rows
+
+
 # ------------------------------------------------------------------ (c), (d)
 def clean_helper(text):
     out = []
@@ -594,6 +621,11 @@ def render(data):
     L.append("]")
     L.append("def typemapNames : List String := [" + ", ".join('"%s"' % r[0] for r in data["typemap"]) + "]")
     L.append("")
+    L.append("/-- the typemap created for `typedef ret (*name)(...)` (typemap.create_fcnptr_typemap), language c and c++:")
+    L.append("    ((C class of c_type, n), (F class of f_c_type or f_type, n), 1 if f_module imports C_FUNPTR) -/")
+    L.append("def fcnptrTypemap : List ((Nat × Nat) × (Nat × Nat) × Nat) := [" +
+             ", ".join("(%s, %s, %d)" % (_tup(r[1]), _tup(r[2]), r[3]) for r in data["fcnptr"]) + "]")
+    L.append("")
     L.append("/-- (bind(C) flag, C fields (class, bytes|struct id, pointer depth, extents in C order), Fortran components (class, bytes|type id, extents in Fortran order)) -/")
     L.append("def structPairs : List (Nat × List (Nat × Nat × Nat × List Nat) × List (Nat × Nat × List Nat)) := [")
     L.append(",\n".join("  (%d, [%s], [%s])" % (b, ", ".join(_tup(x) for x in cf), ", ".join(_tup(x) for x in ff))
@@ -665,6 +697,7 @@ def collect():
     data["decl"] = [decl_all[k] for k in sorted(decl_all)]
     data["rdecl"] = [rdecl_all[k] for k in sorted(rdecl_all)]
     data["typemap"] = typemap_rows()
+    data["fcnptr"] = fcnptr_rows()
     spairs, hif, cd, fd = helper_tables()
     data["structs"], data["hif"] = spairs, hif
     names = sorted(set(cd) | set(fd))
@@ -688,7 +721,7 @@ def regenerate():
     return {"combinations_c": len(ca[1]), "combinations_cxx": len(cb[1]),
             "lookup_disagree_c": sum(1 for a, b in ca[1] if a != b), "lookup_disagree_cxx": sum(1 for a, b in cb[1] if a != b),
             "result_pairs": len(ca[2]) + len(cb[2]), "entries_c": len(ca[0]), "entries_cxx": len(cb[0]),
-            "typemap_rows": len(data["typemap"]), "struct_pairs": [s[0] for s in data["structs"]],
+            "typemap_rows": len(data["typemap"]), "fcnptr_typemap": data["fcnptr"], "struct_pairs": [s[0] for s in data["structs"]],
             "helper_interfaces": len(data["hif"]), "defines_c": len(data["definesC"]), "defines_f": len(data["definesF"]),
             "decl_rows": len(data["decl"]), "result_decl_rows": len(data["rdecl"]), "changed": changed,
             "disagreements": data.get("disagreements", [])[:200],
